@@ -271,10 +271,19 @@ PROPS = {
     ),
     "C17": dict(
         coq="Properties/C17.v",
-        suites=[e2e_suite("eligible,reuse,mutate,plain", ["ineligible_file_sent_or_deleted", "delivered_mixture_of_versions", "not_delivered_within_bound", "source_gone_receiver_lacks_it"])],
-        rule=E2E_RULE,
-        level_text=("Proof (predicate level) + end-to-end runs: a scan returns a file iff all eligibility conditions hold and it is new or changed; an unchanged "
-                    "file is never re-queued. Real store.Local scans of generated trees (young, hidden, ignored, lock, not-included files), re-used names and files "
+        suites=[dict(name="scan", pkg="./client/", test="TestVerifScan", min_lines=300, timeout_quick=600,
+                     env_quick={"VERIF_N": 700}, env_thorough={"VERIF_N": 20000}),
+                e2e_suite("eligible,reuse,mutate,plain", ["ineligible_file_sent_or_deleted", "delivered_mixture_of_versions", "not_delivered_within_bound", "source_gone_receiver_lacks_it"])],
+        rule=("scan: the REAL store.Local.Scan + Broker.includeScannedFile + Broker.scan (hashing, cache.JSON) on generated trees (15 names: nested, hidden "
+              "files and directories, ignored, lock, included / not included, a name with a space, a symbolic link) x minimum age {0, 10 s, 60 s} x hidden on/off x "
+              "include list on/off; histories of 4..18 operations: create anew (rename over the name), rewrite in place, append, touch forwards and BACKWARDS, "
+              "replace by a same-size file with an older / newer / identical mtime, remove, disable marker on/off, scan; ages stay 3 s clear of the minimum-age "
+              "boundary; 40 directed histories first; every scan's returned (name, size, mtime) set is compared with the model and the hash with the content on "
+              "disk; non-trivial = at least two scans; distinct = distinct input lines. " + E2E_RULE),
+        level_text=("Proof: a scan returns a file iff all eligibility conditions hold and it is new or changed; over every history of scans (trees, clocks and "
+                    "the disable marker changing arbitrarily in between) a scan returns exactly the eligible files whose (size, mtime) differs - in either "
+                    "direction - from the version of that name returned last, and a returned file left unchanged is not returned again. The history model is run "
+                    "against the real scanner + cache on generated histories. End-to-end: real store.Local scans of generated trees (young, hidden, ignored, lock, not-included files), re-used names and files "
                     "rewritten while queued: ineligible files are never transmitted or deleted, every eligible (last) version is delivered, and a delivered "
                     "file is never a mixture of versions."),
         level_note=E2E_NOTE + " Regexp matching and symlink resolution are library / OS behaviour (inputs of the predicate); the dangling-symlink scan abort found while reading the code is documented in DESIGN (not generated).",
